@@ -23,7 +23,12 @@ PROP = dict(
         "dense strata: 15% of the cases are specialised tuples (char/byte/item/entry) with crossed components, bare and wrapped in "
         "tuples/arrays/sets/dict values; 15% are sets of 4-8 keys whose text order and < order disagree (offset strings/arrays/bytes, "
         "holes, mixed kinds); every case checks all clients of the order: < <= > >= = !=, orderby ., orderby .k, order \\a \\b a<b / a>b, "
-        "rank with one and with two ranking attributes, max/min with . and .k, printed order of set members, dict entries and relation rows"],
+        "rank with one and with two ranking attributes, max/min with . and .k, printed order of set members, dict entries and relation rows",
+        "10% of the cases are relations (2-3 columns, 2-4 rows) whose PHYSICAL column order is permuted - built by joins of "
+        "single-column relations in a permuted order, associated left or right, and by one join of multi-row relations - next to "
+        "literal spellings ({|a,b| ...}, sets of tuples) of the same relation and of neighbours (one cell changed), bare and wrapped "
+        "alike, and as keys of every client of the order. Rep.relation carries the stored column order; the model's Less/key are "
+        "independent of it (theorems), Go's row walks are not - their agreement is what the run checks (no join in the model)"],
     level_text="Proof: 42 Lean theorems about the transliteration of all 15 Less methods (as repaired), Kind(), compareOps, OrderBy, "
                "OrderedValues, Rank, max/min: an order embedding less a b <-> key a < key b into a proved linear order gives "
                "irreflexivity, transitivity, trichotomy (exactly one of a<b, a=b, b<a), <= > >= as derived relations, "
